@@ -12,14 +12,22 @@ from . import common
 from . import c16
 
 PROP = "C17"
-MODULES = ["PdsVerif.Props.C17"]
+MODULES = ["PdsVerif.Props.StatsValidTie", "PdsVerif.Props.C17"]
 MODEL_MODULES = ["PdsVerif.Model.Standardize", "PdsVerif.Model.StandardizeDrv"]
 REQUIRED = [
     "PdsVerif.C17." + n
     for n in """valid_of_accumulated reload_npy reload_raw reload_npz reload_raw_of_accumulated resave_ok
     npz_keeps_others_iff_overwrite_flag npz_keeps_others_iff save_empty reload_same_apply firstUnused_isSome
     validOld_false_of_negative_sum old_resave_fails lookup_upsert_self lookup_upsert_ne""".split()
-]
+] + ["PdsVerif.StatsValidTie.valid_eq_gen", "PdsVerif.StatsValidTie.rows_of_flat"]
+
+
+def translate(repo):
+    """validity predicate of raw statistics (Standardize._sanitize_stats) -> Generated/StatsValid.lean (Props/StatsValidTie.lean)"""
+    from .translate import statsvalid
+    return statsvalid.generate(repo)
+
+
 RULE = (
     "a case is a sequence of 3-9 operations on ONE path in a fresh temp dir (outside /repo and /verif): accumulate "
     "(vectors / tensors, data with negative sums, large/small scales, small integers; f32/f64), new object, "
